@@ -55,6 +55,9 @@ def cls_of(stack):
     return {"client": Client, "pooled": PooledClient}.get(stack, HashClient)
 
 
+GAP = 2  # seconds between warm-up and read when warm == "gap": beyond HashClient's retry_timeout (1 s)
+
+
 def run_case(ch, stack, serde, warm, shape, preload=True, probe=True):
     net = stacks.new_net(ch, menu=simnet.MENU_CONN)
     if preload:
@@ -67,6 +70,8 @@ def run_case(ch, stack, serde, warm, shape, preload=True, probe=True):
     rec = []
     for i, op in enumerate(seq, 1):
         net.call = i
+        if warm == "gap" and i == 2:
+            net.clock.advance(GAP)
         try:
             rec.append(("ret", op.call(obj)))
         except Exception as e:
@@ -108,9 +113,12 @@ def keys_of(shape):
     return ks
 
 
-def expected(stack, shape, miss, hit, owner, net, ncall):
+def expected(stack, shape, miss, hit, owner, net, ncall, warm=True):
     """What the read call must return given which servers failed."""
-    if stack.startswith("hash"):
+    if stack.startswith("hash") and warm == "gap":
+        # retry_timeout has elapsed: a server that failed in the warm-up call is tried again
+        failed = {a for (c, a, l) in net.hard if c == ncall}
+    elif stack.startswith("hash"):
         # HashClient remembers a server as failing only after a network-level (OSError) failure
         failed = {a for (c, a, l) in net.hard if c == ncall} | network_failed_before(net, ncall)
     else:
@@ -158,7 +166,9 @@ def _jobs(tier):
     jobs = []
     for stack in STACKS:
         for serde in (False, True):
-            for warm in (False, True):
+            for warm in (False, True, "gap"):
+                if warm == "gap" and not stack.startswith("hash"):
+                    continue
                 for si in range(len(SHAPES)):
                     jobs.append((stack, serde, warm, si, tier))
     return jobs
@@ -199,7 +209,7 @@ def _worker(job, chk):
             bad = (f"raises|{cname}|{shape.label}|{type(got[1]).__name__}",
                    f"{cname}(ignore_exc=True).{shape.label} raised {got[1]!r} under fault plan {ch.plan()}")
         else:
-            exp = expected(stack, shape, miss, hit, owner, net, ncall)
+            exp = expected(stack, shape, miss, hit, owner, net, ncall, warm)
             if not same(got, exp):
                 kind = "failure-result-differs-from-miss" if (hard_here or net.hard) else "wrong-result-without-fault"
                 bad = (f"{kind}|{cname}|{shape.label}",
@@ -239,7 +249,7 @@ def replay(detail):
     for ev in net.events:
         print("   ", ev)
     ncall = 2 if warm else 1
-    exp = expected(stack, shape, miss, hit, owner, net, ncall)
+    exp = expected(stack, shape, miss, hit, owner, net, ncall, warm)
     print("    result:", show(rec[-1]), " expected:", show(exp), " miss:", show(miss), " probe:", [show(p) for p in prec])
     out = []
     if not same(rec[-1], exp):
